@@ -367,6 +367,11 @@ func (s *supervisor) runRangeOnce(lo, hi int, tag string, stall time.Duration) b
 	cmd.Stdout = ef
 	cmd.Stderr = ef
 	cmd.Env = append(os.Environ(), "GOTRACEBACK=all")
+	if rb, ok := s.check.(RaceBuilt); ok && rb.NeedsRace() {
+		// race reports do not stop the worker; they go to <workdir>/race.<pid>,
+		// where the check itself counts them per case (exit codes are not trusted)
+		cmd.Env = append(cmd.Env, "GORACE=halt_on_error=0 exitcode=0 log_path="+filepath.Join(s.workdir, "race"))
+	}
 	cmd.SysProcAttr = &syscall.SysProcAttr{Pdeathsig: syscall.SIGKILL} // no orphans if the supervisor is killed
 	if err := cmd.Start(); err != nil {
 		ef.Close()
